@@ -4,6 +4,5 @@ func stub(name string) string {
 	return "-- GENERATED placeholder (" + name + ")\nimport Rpcx.Basic\n"
 }
 
-func genPool() string    { return stub("Pool") }
 func genPreds() string   { return stub("Preds") }
 func genSites() string   { return stub("Sites") }
